@@ -61,7 +61,7 @@ class Relay:
         delivered = b''
         stalled = False
         try:
-            while not self.stop:
+            while not self.stop and not rec.get('kill'):
                 r, _, _ = select.select([c, u], [], [], 0.2)
                 if c in r:
                     d = c.recv(65536)
